@@ -49,6 +49,9 @@ def vertex_defects(mesh):
     """
     angle_sum = np.array(mesh.face_angles_sparse.sum(axis=1)).flatten()
     defect = (2 * np.pi) - angle_sum
+    # a vertex no face references is not on the surface: it has no
+    # angle defect, so closed meshes sum to `2 * pi * euler_number`
+    defect[~mesh.referenced_vertices] = 0.0
     return defect
 
 
